@@ -1,6 +1,6 @@
-\* M+G (quick, exhaustive, variable-length members): packed structures of <= 2 members over B, H, s and their terminated / counted / bound / LEB128 forms, bitfield units and typedefs; zero and pattern values
+\* M+G (quick, exhaustive, variable-length members): packed structures of <= 2 members over B, I, i, s and their terminated / counted / bound / LEB128 forms, bitfield units and typedefs; zero and pattern values
 CONSTANTS
-  RawT = {"B", "H", "I", "i", "s"}
+  RawT = {"B", "I", "i", "s"}
   ArrN = {2}
   NestN = {2}
   Ords = {""}
